@@ -26,7 +26,7 @@ func init() {
 		RequiredCounters: []string{"challenges_compared", "perturbed_pairs_differ", "pending_over_1024"},
 		Assumptions:      []string{"SHA-256 collisions are treated as impossible: two different absorbed byte streams must give different challenges"},
 		Plan: func(tier string) []Child {
-			return shards(pick(tier, 6, 16), Child{Flavour: "plain", NCPU: 1})
+			return shardsVar(pick(tier, 6, 16), Child{Flavour: "plain", NCPU: 1})
 		},
 		Run: runC14,
 	})
@@ -104,6 +104,7 @@ func c14run(c *mon.Ctx, proto string, ops []c14op, pool *Pool, rng *rand.Rand, c
 		// the label lives in a larger backing array (spare capacity filled with sentinels): a callee that appends to it
 		// writes into memory the caller still owns
 		label, labelChk := spareBytes(o.label)
+		var scribbleMsg []byte
 		switch o.kind {
 		case 0:
 			lt.DomainSep(label)
@@ -123,11 +124,12 @@ func c14run(c *mon.Ctx, proto string, ops []c14op, pool *Pool, rng *rand.Rand, c
 			if !msgChk() {
 				c.Fail("input-modified/AppendMessage", "AppendMessage wrote into the spare capacity of the message slice", nil)
 			}
-			rt.AppendMessage(o.msg, o.label)
-			pending += len(label) + len(msg)
 			if string(msg) != string(o.msg) {
 				c.Fail("input-modified/AppendMessage", "AppendMessage changed the message", nil)
 			}
+			scribbleMsg = msg // overwritten below, once the label (which may alias it) has been checked
+			rt.AppendMessage(o.msg, o.label)
+			pending += len(label) + len(msg)
 		case 2:
 			e := FrFromBig(o.s)
 			keep := e
@@ -143,6 +145,7 @@ func c14run(c *mon.Ctx, proto string, ops []c14op, pool *Pool, rng *rand.Rand, c
 			if e != keep {
 				c.Fail("input-modified/AppendScalar", "AppendScalar changed the scalar", nil)
 			}
+			accS.SetUint64(0xBAD) // the caller's variable is re-used afterwards
 		case 3:
 			var l *big.Int
 			flip := false
@@ -177,6 +180,7 @@ func c14run(c *mon.Ctx, proto string, ops []c14op, pool *Pool, rng *rand.Rand, c
 			if e != keep {
 				c.Fail("input-modified/AppendPoint", "AppendPoint changed the point", nil)
 			}
+			accP.SetIdentity()
 		case 4:
 			pending += len(label)
 			if pending > out.maxPending {
@@ -199,6 +203,14 @@ func c14run(c *mon.Ctx, proto string, ops []c14op, pool *Pool, rng *rand.Rand, c
 		}
 		if string(label) != string(o.label) || !labelChk() {
 			c.Fail("input-modified/label", "a transcript call changed its label argument or wrote into its spare capacity", nil)
+		}
+		// the call has returned: the buffers are the caller's again and are overwritten (a transcript that kept a
+		// reference instead of absorbing a copy would hash the new contents)
+		for j := range label {
+			label[j] = 0xEE
+		}
+		for j := range scribbleMsg {
+			scribbleMsg[j] = 0xDD // the caller re-uses its message buffer after the call
 		}
 	}
 	return out
